@@ -18,6 +18,27 @@ def gen_paths(rng, count, ns=(2, 3, 4, 5), tilt=True, max_inc=70.0):
     return out
 
 
+def scaled(path, info, s):
+    """the same exact ray at another length scale: every point multiplied by `s` (frames, materials, modes unchanged)"""
+    import arim
+    import arim.geometry as g
+    import arim.ray
+
+    shared = {}
+    ifaces = []
+    for i in path.interfaces:
+        if id(i.points) not in shared:
+            shared[id(i.points)] = g.Points(i.points.coords * s, i.points.name)
+        ifaces.append(arim.Interface(shared[id(i.points)], i.orientations, i.kind, i.transmission_reflection, i.reflection_against,
+                                     i.are_normals_on_inc_rays_side, i.are_normals_on_out_rays_side))
+    p2 = arim.Path(tuple(ifaces), path.materials, path.modes, name=path.name)
+    arim.ray.ray_tracing_for_paths([p2])
+    if not np.array_equal(p2.rays.indices, path.rays.indices):
+        return None
+    info2 = dict(info, points=[np.asarray(q) * s for q in info["points"]], legs=[l * s for l in info["legs"]])
+    return p2, info2
+
+
 def spec_tokens(path):
     toks = []
     for k in range(1, path.numinterfaces - 1):
